@@ -14,6 +14,11 @@ Model of `Section.merge_check` / `Section.merge` (odml/section.py), `Property.me
   there is no rollback in the code, so "a merge that raises has changed nothing" is a theorem
   about `mergeCheck`, not a fact by construction.
 * Statement order follows the Python source; comments name the statements.
+* `Section.merge` runs two checks before it changes anything: `merge_check` (`mergeCheck`,
+  attribute conflicts of the objects that will be merged) and `_merge_name_check` (`typeClash`,
+  a source sub-Section that would have to be added under a name the destination already uses
+  for a Section of another type); the second one is the fix of finding
+  `C13/section-name-clash-other-type`.
 
 Assumed (kept out of the generated universe, see design.d/C13.md): n-tuple dtypes,
 non-numeric `uncertainty` strings, non-canonical dtype spellings ("Int"), the empty string as a
@@ -281,8 +286,28 @@ def mergeCheckSecs (cv : Conv V) (strict : Bool) (dsecs : List (Sec V)) : List (
       | .raised e => .raised e
       | .ok => mergeCheckSecs cv strict dsecs os
     -- nothing is checked for a source child `contains` does not find (also when a child of the
-    -- same name but another type exists: known finding C13/section-name-clash-other-type)
+    -- same name but another type exists: that is `_merge_name_check`'s business, see `typeClash`)
     | none => mergeCheckSecs cv strict dsecs os
+end
+
+mutual
+/-- `Section._merge_name_check(source_section)`; `true` = it raises `ValueError`.
+    Somewhere in the pairs of Sections `merge` will visit, the source has a sub-Section whose
+    name is used in the destination by a Section of **another type**: `contains` does not find
+    it and `SmartList.append` would refuse the clone. (Before the fix of finding
+    `C13/section-name-clash-other-type` nothing looked at this before the merge loop ran.) -/
+def typeClash : Sec V → Sec V → Bool
+  | d, .mk _ _ ssecs => typeClashSecs d.secs ssecs
+/-- the loop `for obj in source_section.sections` of `_merge_name_check` -/
+def typeClashSecs (dsecs : List (Sec V)) : List (Sec V) → Bool
+  | [] => false
+  | o :: os =>
+    -- mine = self.contains(obj)
+    (match findSec dsecs o.name o.type with
+     -- mine._merge_name_check(obj)
+     | some mine => typeClash mine o
+     -- elif obj.name in self.sections: raise ValueError
+     | none => secNameIn dsecs o.name) || typeClashSecs dsecs os
 end
 
 /-- `mine = obj.clone(); mine._merged = obj` for a Section (clone is the identity on the
@@ -314,6 +339,9 @@ def merge (cv : Conv V) (strict : Bool) : Ref → Sec V → Sec V → Sec V × O
     match mergeCheck cv strict d (.mk sa sprops ssecs) with
     | .raised e => (d, .raised e)
     | .ok =>
+      -- self._merge_name_check(section)
+      if typeClash d (.mk sa sprops ssecs) then (d, .raised .valueError)
+      else
       -- if self.definition is None and ...: self.definition = section.definition; same for reference
       let a1 := { d.attrs with definition := fillText d.attrs.definition sa.definition
                                reference := fillText d.attrs.reference sa.reference }
@@ -339,6 +367,8 @@ def mergeSecs (cv : Conv V) (strict : Bool) : Ref → List (Sec V) → List (Sec
       | (m', .ok) => mergeSecs cv strict r (replaceFirst (secMatch o.name o.type) m' dsecs) os
     | none =>
       -- mine = obj.clone(); mine._merged = obj; self.append(mine)
+      -- (SmartList.append: KeyError on a used name; excluded by `_merge_name_check` for a source
+      -- with unique sibling names, theorem C13.merge_all_or_nothing)
       if secNameIn dsecs o.name then (dsecs, .raised .keyError)
       else mergeSecs cv strict r (dsecs ++ [cloneMerged (r.child o.name) o]) os
 end
@@ -379,21 +409,6 @@ def typedSec : Sec V → Bool
 def typedSecs : List (Sec V) → Bool
   | [] => true
   | o :: os => typedSec o && typedSecs os
-end
-
-mutual
-/-- somewhere in the pairs of Sections `merge` will visit, the source has a sub-Section whose
-    name is used in the destination by a Section of **another type** (so `contains` does not
-    find it and `SmartList.append` refuses the clone). Delimits known finding
-    `C13/section-name-clash-other-type`. -/
-def typeClash : Sec V → Sec V → Bool
-  | d, .mk _ _ ssecs => typeClashSecs d.secs ssecs
-def typeClashSecs (dsecs : List (Sec V)) : List (Sec V) → Bool
-  | [] => false
-  | o :: os =>
-    (match findSec dsecs o.name o.type with
-     | some mine => typeClash mine o
-     | none => secNameIn dsecs o.name) || typeClashSecs dsecs os
 end
 
 /-! ## "A conflict anywhere in the two trees" (vocabulary of the property statement) -/
